@@ -168,7 +168,7 @@ class Runner:
     def run_abs(self, de):
         r = {"k": "abs", "de": de}
         d = build_dissim(r)
-        check_pairs(self.pa, self.res, f"abs de={de}", r, d, label_pairs([None, "x", "y", "z"]) +
+        check_pairs(self.pa, self.res, f"abs de={de}", r, d, label_pairs([None, "", "x", "y", "z"]) +
                     seg_pairs(["x"], ["x", "y"])[:60],
                     lambda u, v: (0.0 if u[2] == v[2] else 1.0) * de)
 
